@@ -971,7 +971,7 @@ func callBuiltin(caller *frame, fn *ssa.Builtin, args []value) value {
 	case "delete": // delete(map[K]value, K)
 		switch m := args[0].(type) {
 		case *hashmap:
-			m.delete(args[1])
+			caller.mapDelete(m, args[1])
 		default:
 			panic(fmt.Sprintf("illegal map type: %T", m))
 		}
@@ -1081,6 +1081,35 @@ func callBuiltin(caller *frame, fn *ssa.Builtin, args []value) value {
 
 	case "ssa:deferstack":
 		return &caller.defers
+
+	// unsafe.String / Slice / SliceData / StringData on byte data: a pointer
+	// to an element of a []value backing array is a host pointer into that
+	// array, so the host's unsafe.Slice rebuilds the interpreted slice.
+	case "String":
+		n := asInt64(args[1])
+		if n == 0 {
+			return ""
+		}
+		return mkStr(unsafe.Slice(args[0].(*value), n))
+	case "Slice":
+		n := asInt64(args[1])
+		p := args[0].(*value)
+		if p == nil || n == 0 {
+			return []value(nil)
+		}
+		return unsafe.Slice(p, n)
+	case "SliceData":
+		sl := args[0].([]value)
+		if cap(sl) == 0 {
+			return (*value)(nil)
+		}
+		return &sl[:1][0]
+	case "StringData":
+		el := strElems(args[0])
+		if len(el) == 0 {
+			return (*value)(nil)
+		}
+		return &el[0]
 	}
 
 	panic("unknown built-in: " + fn.Name())
